@@ -145,11 +145,14 @@ Definition exported_targets_declared (g : cfg) : bool :=
       | _ => true
       end) (b_stmts b)) (c_blocks g).
 
-(* ... and `<==` only assigns signals. *)
+(* ... and a `<==` reads the name it assigns: `sig <== e` records the assigned signal as read
+   (statement_impl.rs), `c.port <== e` reads the component through its update expression.
+   (Until the third audit this clause said "`<==` only assigns signals", which is false for ports
+   of sub-components; what the proof of C09_noninterference_never_read uses is this fact.) *)
 Definition csig_on_signals (g : cfg) : bool :=
   forallb (fun b => forallb (fun s =>
       match s with
-      | SSubst _ _ OpCSig _ _ st => match st with Some t => is_signal t | None => true end
+      | SSubst _ x OpCSig _ _ (Some _) => vmem x (stmt_reads (c_decls g) s)
       | _ => true
       end) (b_stmts b)) (c_blocks g).
 Definition ssa_wf_b (g : cfg) : bool := exported_targets_declared g && csig_on_signals g.
